@@ -124,6 +124,7 @@ package dns
 //@   requires msg != nil
 //@   requires[names] forall(i, 0, len(msg.Question), labelsFit(msg.Question[i].Name), trig(msg.Question[i]))
 //@   requires[no-records] len(msg.Answer) == 0 && len(msg.Authority) == 0
+//@   requires[opt-only] forall(i, 0, len(msg.Additional), optRR(msg.Additional[i]), trig(msg.Additional[i]))
 //@   modifies rpos, closed, reqcount(0)
 //@   allocates Message, retryablehttp.Request, http.Request, retryablehttp.Client, http.Response
 //@   ensures[F:one-request] reqcount(0) <= old(reqcount(0)) + 1 && (err == nil ==> reqcount(0) == old(reqcount(0)) + 1)
@@ -142,23 +143,52 @@ package dns
 //@ func Message.Bytes returns (out)
 //@   requires[names] forall(i, 0, len(m.Question), labelsFit(m.Question[i].Name), trig(m.Question[i]))
 //@   requires[no-records] len(m.Answer) == 0 && len(m.Authority) == 0
+//@   requires[opt-only] forall(i, 0, len(m.Additional), optRR(m.Additional[i]), trig(m.Additional[i]))
 //@   terminates
+//@   ensures[L:length] len(out) == 12 + questionsWire(m.Question, len(m.Question)) + optRRsWire(m.Additional, len(m.Additional))
 //@   loop 1 "range m.Question"
-//@     invariant !berr(s)
+//@     invariant[L:questions] !berr(s) && len(bbuf(s)) == 12 + questionsWire(m.Question, ri1)
 //@   loop 2 "range parts"
-//@     invariant !berr(s)
+//@     invariant[L:labels] !berr(s) && len(bbuf(s)) == entry(len(bbuf(s))) + labelsWire(trimSuffixOf(cid(v.Name), cid(".")), ri2)
+//@   loop 3 "range [][]RR"
+//@     invariant[L:sections] !berr(s) && len(bbuf(s)) == entry(len(bbuf(s))) + ite(ri3 >= 3, optRRsWire(m.Additional, len(m.Additional)), 0)
+//@   loop 4 "range v"
+//@     invariant[L:records] !berr(s) && forall(j, 0, len(rx4), optRR(rx4[j]), trig(rx4[j])) && len(bbuf(s)) == entry(len(bbuf(s))) + optRRsWire(rx4, ri4)
 
+// AddPadding on a message without additional records (how the resolver uses it): afterwards the only additional record is
+// an OPT record and the encoded size of the message is a multiple of 128.
 //@ func Message.AddPadding
 //@   requires m != nil
 //@   requires[names] forall(i, 0, len(m.Question), labelsFit(m.Question[i].Name), trig(m.Question[i]))
 //@   requires[no-records] len(m.Answer) == 0 && len(m.Authority) == 0
-//@   requires[typed] forall(i, 0, len(m.Additional), typedRR(m.Additional[i]))
+//@   requires[no-additional] len(m.Additional) == 0
 //@   modifies m.Additional
 //@   terminates
 //@   ensures[F:question-kept] m.Question == old(m.Question) && len(m.Answer) == 0 && len(m.Authority) == 0
+//@   ensures[L:padded] len(m.Additional) == 1 && optRR(m.Additional[0]) && (12 + questionsWire(m.Question, len(m.Question)) + optRRsWire(m.Additional, len(m.Additional))) % 128 == 0
+//@   loop 1 "slices.DeleteFunc(opts"
+//@     invariant[L:kept-at-most] len(dfout) <= dfi
 
-// RRType maps a type name to its number through the package's table; the result is a function of the name's contents.
-//@ ghostfn rrTypeOf(name int) int
-//@ func RRType returns (id)
-//@   trusted
-//@   ensures int(id) == rrTypeOf(cid(t))
+// ---------------------------------------------------------------------------
+// Encoded sizes (C13, partial): the wire length of a query message, and what AddPadding does to it.
+// ---------------------------------------------------------------------------
+
+// labelsWire(t, i): octets taken by the first i labels of the name whose contents (trailing dot removed) are t: one length
+// octet plus the label each. nameWire(n): RFC 1035 3.1 - the labels followed by the root label; the root name itself is
+// the single octet 0.
+//@ purerec labelsWire(t int, i int) int = ite(i <= 0, 0, labelsWire(t, i-1) + 1 + splitPartLen(t, cid("."), i-1))
+//@ pure nameWire(n string) int = ite(trimSuffixLen(cid(n), cid(".")) == 0, 1, labelsWire(trimSuffixOf(cid(n), cid(".")), splitLen(trimSuffixOf(cid(n), cid(".")), cid("."))) + 1)
+//@ purerec questionsWire(Q []Question, i int) int = ite(i <= 0, 0, questionsWire(Q, i-1) + nameWire(Q[i-1].Name) + 4)
+// optionsWire(O, i): octets of the first i EDNS options (code, length, data).
+//@ purerec optionsWire(O []Option, i int) int = ite(i <= 0, 0, optionsWire(O, i-1) + 4 + len(O[i-1].Data))
+//@ purerec optRRsWire(R []RR, i int) int = ite(i <= 0, 0, optRRsWire(R, i-1) + 11 + optionsWire(payloadS(R[i-1].Data), len(payloadS(R[i-1].Data))))
+// optRR(rr): an OPT pseudo-record as AddPadding makes it (empty owner name, option list as data).
+//@ pure optRR(rr RR) bool = int(rr.Type) == 41 && len(rr.Name) == 0 && rr.Data != nil && dyntype(rr.Data) == typeid("[]Option") && optionsWire(payloadS(rr.Data), len(payloadS(rr.Data))) <= 65535 &&
+//@     forall(k, 0, len(payloadS(rr.Data)), len(as(payloadS(rr.Data), "[]Option")[k].Data) <= 65535)
+
+//@ func RR.Bytes returns (out)
+//@   requires[serializable] optRR(rr)
+//@   terminates
+//@   ensures[L:opt-length] len(out) == 11 + optionsWire(payloadS(rr.Data), len(payloadS(rr.Data)))
+//@   loop 3 "range data"
+//@     invariant[L:options] !berr(s) && len(bbuf(s)) == entry(len(bbuf(s))) + optionsWire(payloadS(rr.Data), ri3)
